@@ -37,6 +37,7 @@ def build(rnd_seed, recorder=None):
         def handle_event(self, e):
             md = e.context["metadata"]
             tok, hops = md["tok"], md["hops"]
+            md["hops"] = hops - 1       # a handler may use the delivered event's own metadata in place (hop budget)
             log.append((self.now.nanoseconds, self.name, e.event_type, tok, hops))
             self.count += 1
             if hops <= 0:
@@ -229,7 +230,14 @@ def run_models(n_models, seed):
             x.count, x.pending = 0, []
         sim.run()
         differ(m, "reset+run", ref, final_state(sim, nodes, log))
-        evals += 6
+        # ... and a SECOND reset()+run() as well (the replayed events must not share state with the saved specs)
+        c.reset()
+        del log[:]
+        for x in nodes:
+            x.count, x.pending = 0, []
+        sim.run()
+        differ(m, "reset+run twice", ref, final_state(sim, nodes, log))
+        evals += 7
     return evals, bad
 
 
